@@ -85,6 +85,7 @@ def answer (l : String) : String :=
        "ok " ++ (match r.outcome with | .ok true => "t" | .ok false => "f" | .err _ => "e" | .panic _ => "panic")
      | .err _ => "err"
      | .panic _ => "panic")
+  | "bkt1" :: _ => "nopanic"
   -- blocktimeindex
   | ["bt", f, "get", slot] =>
     (match (btUnmarshal (unhexT f)).outcome with
